@@ -119,8 +119,9 @@ class Perturb(object):
     TOOL = 3
 
     def __init__(self, seed, prob, target=None, target_delay=0.0,
-                 on_target=None, funcs=None):
+                 on_target=None, funcs=None, on_line=None):
         self.on_target = on_target
+        self.on_line   = on_line     # called at every statement start
         self.rngs   = dict()
         self.seed   = seed
         self.prob   = prob
@@ -176,6 +177,11 @@ class Perturb(object):
 
     def _line(self, code, line):
         self.events += 1
+        if self.on_line:
+            try:
+                self.on_line(code, line)
+            except Exception:
+                pass
         if self.target and self.target == (code, line):
             self.hit += 1
             if self.on_target:
